@@ -24,6 +24,20 @@ PAIR = re.compile(r'^\(oal_model::lexicon::Cursor, (oal_model::grammar::)?Parser
 TRANSFORMS_OK = {'as_ref', 'deref', 'borrow', 'as_str', 'clone', 'to_owned', 'into', 'from', 'to_string', 'as_mut_str', 'branch', 'load', 'read_file', 'read_to_string', 'unwrap', 'expect'}
 
 
+def _lexer_for_each(facts, tk):
+    """the closure tokenize hands to `for_each` on the (spanned) lexer, or None"""
+    plain = facts.fns.get(tk.id, tk)
+    for cl in facts.closures_of(plain):
+        if not cl.mir:
+            continue
+        cty = '{closure@%s}' % cl.d.get('span', '?')
+        for b, t in plain.calls():
+            nm = P.strip((callee_of(t) or {}).get('def', '')).split('::')[-1]
+            if nm == 'for_each' and len(t['args']) > 1 and t['args'][1].get('ty', '') == cty and re.search(r'logos|Lexer|Spanned', t['args'][0].get('ty', '')):
+                return cl
+    return None
+
+
 def r1_lex_range(c, facts):
     R = c.rule('C11.R1', 'LEX-RANGE: stored range = sliced range = lexer range; the text reaches the lexer unchanged')
     tk = c.anchor(R, 'oal_syntax::lexer::tokenize')
@@ -31,18 +45,33 @@ def r1_lex_range(c, facts):
     push = P.call_blocks(tk, 'TokenList::push')
     index = [(b, t) for b, t in P.call_blocks(tk, 'Index::index') if 'str' in (callee_of(t).get('self_ty') or '')]
     spans = P.call_blocks(tk, 'span::Span::new')
+    outer = tk
+    item_param = None
+    if not push or not index:
+        # `lexer.for_each(|(result, range)| ..)`: the loop body is the closure handed to for_each on the lexer; its item
+        # parameter is what `next()` yields in the loop form
+        cl = _lexer_for_each(facts, tk)
+        if cl is not None:
+            tk = facts.closure_flat(cl)[0]
+            idx = MF.defs_index(tk)
+            item_param = 2
+            push = P.call_blocks(tk, 'TokenList::push')
+            index = [(b, t) for b, t in P.call_blocks(tk, 'Index::index') if 'str' in (callee_of(t).get('self_ty') or '')]
+            spans = P.call_blocks(tk, 'span::Span::new')
     if not push or not index:
         c.bad(R, 'tokenize:shape', 'tokenize no longer slices the input and pushes (token, range)')
         return
 
     def prov(op):
-        sl = MF.slice_back(tk, op['l'], idx) if 'l' in op else {'locals': set(), 'calls': [], 'aggrs': []}
+        sl = MF.slice_back(tk, op['l'], idx) if 'l' in op else {'locals': set(), 'calls': [], 'aggrs': [], 'args': set()}
         arith = False
         for l in sl['locals']:
             for kind, bi, s in idx.get(l, []):
                 if kind in ('assign', 'field') and s['rv']['r'] == 'binop':
                     arith = True
         names = {P.strip(n).split('::')[-1] for n, _, _ in sl['calls']}
+        if item_param is not None and item_param in sl['args']:
+            names.add('next')       # the item of the iteration, handed to the closure by for_each
         return sl['locals'], arith, names
     pl, pa, pn = prov(push[0][1]['args'][2])
     il, ia, inn = prov(index[0][1]['args'][1])
@@ -60,12 +89,19 @@ def r1_lex_range(c, facts):
         else:
             c.bad(R, 'error-span-altered', 'a lexical error span is not the unmodified lexer range (%s:%s)' % (tk.file, t['ln']))
     # lexer input is the function's input parameter
-    lx = P.call_blocks(tk, 'Logos::lexer', 'lexer')
+    lx = P.call_blocks(outer, 'Logos::lexer', 'lexer')
     lx = [(b, t) for b, t in lx if P.strip(callee_of(t)['def']).endswith('Logos::lexer')]
     if lx:
-        a = MF.slice_back(tk, lx[0][1]['args'][0]['l'], idx)
+        oidx = MF.defs_index(outer)
+        a = MF.slice_back(outer, lx[0][1]['args'][0]['l'], oidx)
         i2 = MF.slice_back(tk, index[0][1]['args'][0]['l'], idx)
-        if 2 in a['args'] and 2 in i2['args'] and not [n for n, _, _ in a['calls'] if P.strip(n).split('::')[-1] not in TRANSFORMS_OK]:
+        sliced_is_input = 2 in i2['args']
+        if item_param is not None:
+            # in the closure the sliced text is a capture: the one `&str` the closure borrows from tokenize is its input
+            caps = facts.closure_flat(_lexer_for_each(facts, outer))[1]
+            strcaps = [k for k, pl in caps.items() if k in i2['locals'] and pl is not None and pl.get('l') == 2]
+            sliced_is_input = bool(strcaps)
+        if 2 in a['args'] and sliced_is_input and not [n for n, _, _ in a['calls'] if P.strip(n).split('::')[-1] not in TRANSFORMS_OK]:
             c.ok(R, {'tokenize': 'lexes and slices its `input` parameter'})
         else:
             c.bad(R, 'tokenize-input-transformed', 'tokenize lexes a text other than the one it slices / was given')
@@ -531,6 +567,9 @@ def r9_lex_total(c, facts):
     R = c.rule('C11.R9', 'LEX-TOTAL: tokens and lexical errors cover the whole text: the tokenizing loop ends only when the lexer is exhausted')
     tk = c.anchor(R, 'oal_syntax::lexer::tokenize')
     nx = [(b, t) for b, t in P.call_blocks(tk, 'Iterator::next') if 'logos' in (t['args'][0].get('ty', '') if t['args'] else '') or 'Lexer' in (t['args'][0].get('ty', '') if t['args'] else '') or 'Spanned' in (t['args'][0].get('ty', '') if t['args'] else '')]
+    if not nx and _lexer_for_each(facts, tk) is not None:
+        c.ok(R, {'tokenize': 'the lexer is consumed by for_each, which has no early exit'})
+        return
     if not nx:
         c.bad(R, 'tokenize:no-lexer-loop', 'tokenize no longer iterates the lexer')
         return
